@@ -24,12 +24,29 @@ def rule_a(ctx: Ctx) -> None:
     ok = len(sets) == 1
     det = ''
     if ok:
+        from .common import bool_atoms, bool_eval
         gs = guards(ctx, f, sets[0])
-        ok = gs == {('error.elem is None and self.elem is not None', 'T')}
+        # one test guards the fallback: it holds for an error with no location at all when the context has an element (every other atom may only narrow
+        # the notion of "no location": `… is None` atoms on the error), and fails when the error has an element or the context has none
+        tests = []
+        ok = len(gs) == 1
+        for t, lab in gs:
+            try:
+                e_ = ast.parse(t, mode='eval').body
+            except SyntaxError:
+                ok = False
+                continue
+            atoms = bool_atoms(e_)
+            need = {'error.elem is None', 'self.elem is not None'}
+            extra = [a for a in atoms if a not in need]
+            ok = ok and lab == 'T' and need <= set(atoms) and all(a.startswith('error.') and a.endswith(' is None') for a in extra)
+            if ok:
+                env = {a: True for a in atoms}
+                ok = bool_eval(e_, env) and not bool_eval(e_, {**env, 'error.elem is None': False}) and not bool_eval(e_, {**env, 'self.elem is not None': False})
+            tests += [n for n in g.nodes if n.kind == 'if' and text(n.ast.test) == t]
         det = '' if ok else f'guards {sorted(gs)}'
         # before the error leaves the function (raise) or is stored (append)
         outs = [n for n in g.nodes if n.kind == 'raise'] + [n for n, c in call_nodes(g, lambda c: text(c.func) == 'self.errors.append')]
-        tests = [n for n in g.nodes if n.kind == 'if' and text(n.ast.test) == 'error.elem is None and self.elem is not None']
         for o in outs:
             ok = ok and g.must_pass(g.entry, [o], tests, kinds='nTF') is None
     ctx.ob(rule, 'raise_or_collect attaches the context element to an error that has none, before raising or collecting it', f.loc(), ok, det,
@@ -402,4 +419,65 @@ def rule_j(ctx: Ctx) -> None:
     ctx.explain('C19.j: sibling agreement of XsdGroup.match_element (model-less) and ModelVisitor.match_element: every non-None return value is the result of a `.match(…)` call.')
 
 
-RULES = [rule_a, rule_b, rule_c, rule_d, rule_e, rule_f, rule_g, rule_h, rule_i, rule_j]
+VCTX_Q = 'xmlschema.validators.validation.ValidationContext'
+
+
+def rule_k(ctx: Ctx) -> None:
+    """The reporter is handed the element the error belongs to.  For a message it builds the error around that element; for a *ready-made* error (an
+    extra validator's, a nested validator's) whose own `obj` is a value, it must still take the element from the argument - otherwise the fallback in
+    raise_or_collect supplies context.elem, which after the children were decoded is the last descendant (the typestate rule C19.b counts on this)."""
+    rule = 'C19.k'
+    f = ctx.idx.method(VCTX_Q, 'validation_error')
+    ctx.analysed(f.qualname)
+    g = cfg_of(ctx, f)
+    p = [x for x in f.params if x != 'self']
+    objp = p[3] if len(p) > 3 else 'obj'
+    errp = p[2] if len(p) > 2 else 'error'
+    sets = [n for n in g.nodes if n.kind == 'stmt' and isinstance(n.ast, ast.Assign) and text(n.ast.targets[0]) == f'{errp}.elem' and text(n.ast.value) == objp]
+    ok = False
+    for n in sets:
+        gs = guards(ctx, f, n)
+        ready = (f'not isinstance({errp}, XMLSchemaValidationError)', 'F') in gs or (f'isinstance({errp}, XMLSchemaValidationError)', 'T') in gs
+        if ready:
+            ok = True
+    ctx.ob(rule, 'ValidationContext.validation_error: a ready-made error without an element gets the element argument', f.loc(sets[0].ast) if sets else f.loc(), ok,
+           '' if ok else f'no `{errp}.elem = {objp}` on the branch for error instances: an XMLSchemaValidationError(xsd_element, "some string", reason) yielded by an extra_validator for '
+           '<a> is located at the last descendant of <a> (context.elem is stale after the children)', key='validation_error|ready-made-elem')
+    ctx.explain('C19.k: in ValidationContext.validation_error the branch taken for an error instance assigns `error.elem = obj` (under its own None/element tests) before raise_or_collect.')
+
+
+def lazy_path_kept(ctx: Ctx, rule: str) -> None:
+    """An error on a lazy resource stores the *path* of its element, never the element (`elem` stays None).  The fallback of raise_or_collect - "no element:
+    take context.elem" - therefore also looks at the path, or every lazy error is re-located at the element processed last."""
+    from .common import atom_forces
+    f = ctx.idx.method(VCTX_Q, 'raise_or_collect')
+    ctx.analysed(f.qualname)
+    g = cfg_of(ctx, f)
+    p = [x for x in f.params if x != 'self']
+    errp = p[1] if len(p) > 1 else 'error'
+    falls = [n for n in g.nodes if n.kind == 'stmt' and isinstance(n.ast, ast.Assign) and text(n.ast.targets[0]) == f'{errp}.elem' and text(n.ast.value) == 'self.elem']
+    ctx.floor(rule, 'fallbacks to context.elem in raise_or_collect', len(falls), 1)
+    for n in falls:
+        ok = False
+        for t, lab in guards(ctx, f, n):
+            if lab != 'T':
+                continue
+            try:
+                e = ast.parse(t, mode='eval').body
+            except SyntaxError:
+                continue
+            for atom in (f'{errp}.path is None', f'{errp}._path is None'):
+                if atom_forces(e, atom, False, False):
+                    ok = True
+        ctx.ob(rule, 'ValidationContext.raise_or_collect: context.elem replaces the location of an error only when it has neither element nor path', f.loc(n.ast), ok,
+               '' if ok else 'the fallback looks at `error.elem` alone, which is None for every error on a lazy resource: a children error is located at the last decoded '
+               'descendant (/root/a[2]/b instead of /root/a[2]) and the final IDREF check at the last chunk instead of the root - other paths than full validation reports',
+               key='raise_or_collect|lazy-path-kept')
+    ctx.explain(f'{rule}: the path condition of `error.elem = self.elem` in raise_or_collect is false whenever `error.path is None` is false (truth table of the guard).')
+
+
+def rule_l(ctx: Ctx) -> None:
+    lazy_path_kept(ctx, 'C19.l')
+
+
+RULES = [rule_a, rule_b, rule_c, rule_d, rule_e, rule_f, rule_g, rule_h, rule_i, rule_j, rule_k, rule_l]
